@@ -212,6 +212,21 @@ func runR01_4(c *Ctx, r *R) {
 				hasFound = true
 			}
 		}
+		// an early "absent" answer before the search starts must mean that the table has no entry at all
+		{
+			e := newBE(c)
+			fc := e.newFnCtx(f)
+			inLoop := reachableFrom(header)
+			for _, ret := range returnsOf(f) {
+				if len(ret.Results) != 1 || !isConstInt(ret.Results[0], -1) || inLoop[ret.Block()] || ret.Block() == header {
+					continue
+				}
+				budget := 300
+				if !fc.prove(leq(e.lenOf(f.Params[0], 'l'), linConst(sp.stride-1)), ret.Block(), nil, nil, 4, &budget) {
+					bad("the early -1 at %s is taken for tables that are not empty (it must imply len(table) < %d): the only field of a one-entry table is reported absent", c.pos(ret.Pos()), sp.stride)
+				}
+			}
+		}
 		if !hasMinus1 {
 			bad("no -1 result for an absent tag")
 		}
